@@ -395,6 +395,55 @@ def check(an, rep, tier):
     _RP.check_param_forwarding(prog, rep, callers=_callers)
     from .. import rules_proto as _RPZ
     _RPZ.check_none_vs_zero(prog, rep, modules={'optima', 'optima_func'})
+    # --- P-endpoints: ``if E not in L: L.append(E')`` in the functional
+    # variant's one-dimensional maximiser -- the candidate that is added is
+    # the one whose absence was tested (both ends of the clip interval must
+    # reach the candidate list; a maximum modulus attained only at an end
+    # point is otherwise never evaluated).  Three-valued: the same
+    # expression = ok; two different constant components of the same
+    # container = violation; any other spelling = unknown (no floor).
+    for _f in prog.all_functions():
+        if _f.module.name != 'optima_func':
+            continue
+        for _if in ast.walk(_f.node):
+            if not isinstance(_if, ast.If):
+                continue
+            _atoms = _if.test.values if (isinstance(_if.test, ast.BoolOp) and
+                isinstance(_if.test.op, ast.And)) else [_if.test]
+            for _a in _atoms:
+                if not (isinstance(_a, ast.Compare) and len(_a.ops) == 1 and
+                        isinstance(_a.ops[0], ast.NotIn) and
+                        isinstance(_a.comparators[0], ast.Name)):
+                    continue
+                _L = _a.comparators[0].id
+                for _st in _if.body:
+                    _c = _st.value if isinstance(_st, ast.Expr) else None
+                    if not (isinstance(_c, ast.Call) and
+                            isinstance(_c.func, ast.Attribute) and
+                            _c.func.attr == 'append' and
+                            isinstance(_c.func.value, ast.Name) and
+                            _c.func.value.id == _L and len(_c.args) == 1):
+                        continue
+                    _e0 = _roles.inline(_f.node, _a.left)
+                    _e1 = _roles.inline(_f.node, _c.args[0])
+                    if ast.unparse(_e0) == ast.unparse(_e1):
+                        _st3 = 'ok'
+                    elif (isinstance(_e0, ast.Subscript) and
+                          isinstance(_e1, ast.Subscript) and
+                          ast.unparse(_e0.value) == ast.unparse(_e1.value) and
+                          isinstance(_e0.slice, ast.Constant) and
+                          isinstance(_e1.slice, ast.Constant) and
+                          _e0.slice.value != _e1.slice.value):
+                        _st3 = 'violation'
+                    else:
+                        _st3 = 'unknown'
+                    rep.add('P-endpoints', _f.qualname, 'the candidate '
+                            'appended to %s at line %d is the one whose '
+                            'absence was tested (%s)' % (
+                                _L, _c.lineno, ast.unparse(_a.left)), _st3,
+                            '' if _st3 == 'ok' else 'tested %s, appended %s'
+                            % (ast.unparse(_a.left),
+                               ast.unparse(_c.args[0])))
     rep.floor('S-layout', 3, 'beam layouts')
     rep.floor('V-provenance', 4, 'value provenance')
     rep.floor('U-ledger', 4, 'beam ledger')
